@@ -90,6 +90,18 @@ fn scn_c06_enc() -> Scenario {
     }
 }
 
+fn scn_enc_error() -> Scenario {
+    Scenario {
+        name: "F-encoder-error",
+        engine: "F",
+        run: c06::run_encoder_error,
+        quick: 40_000,
+        thorough: 1_200_000,
+        grid: 0,
+        what: "EncodeBody (client and server role, identity/gzip/deflate/zstd) over a codec that fails to serialize one message at any position after writing 0..20000 bytes of it: the wire carries exactly the earlier messages, whole, then one error status",
+    }
+}
+
 fn scn_c06_4g() -> Scenario {
     Scenario {
         name: "F-encode-4gib",
@@ -163,7 +175,7 @@ fn props() -> Vec<Property> {
     Property {
         id: "C03",
         title: "Requests and responses on the wire are spec-conformant gRPC",
-        scenarios: vec![scn_c01(), scn_c06_enc(), scn_c02_f(), scn_n_client_view(), scn_n_server_view(), Scenario { name: "F-odd-proto-names", engine: "F", run: c03::run_odd_names, quick: 2_000, thorough: 20_000, grid: 0, what: "a prost-generated service whose proto names are not canonical (service HTTPecho_v2, method get_URL): the generated client posts to, and the generated server serves, /simpb.HTTPecho_v2/get_URL; NamedService::NAME is the proto identifier" }, Scenario { name: "N-unknown-path", engine: "N", run: nwire::run_unknown_path, quick: 6_000, thorough: 300_000, grid: 0, what: "raw h2 client -> tonic Server with three generated services: unknown method of a known service (generated fallback arm), unknown service and odd paths (router fallback): 200, content-type application/grpc, exactly one grpc-status 12, no body, no handler entered" }, Scenario { name: "F-origin-path", engine: "F", run: c03::run_origin, quick: 4_000, thorough: 150_000, grid: 0, what: "generated client built with_origin (with/without a path prefix, trailing slashes) in front of a foreign peer: :path keeps the prefix and ends in /package.Service/Method, POST, te, content-type, all four shapes" }],
+        scenarios: vec![scn_c01(), scn_c06_enc(), scn_enc_error(), scn_c02_f(), scn_n_client_view(), scn_n_server_view(), Scenario { name: "F-odd-proto-names", engine: "F", run: c03::run_odd_names, quick: 2_000, thorough: 20_000, grid: 0, what: "a prost-generated service whose proto names are not canonical (service HTTPecho_v2, method get_URL): the generated client posts to, and the generated server serves, /simpb.HTTPecho_v2/get_URL; NamedService::NAME is the proto identifier" }, Scenario { name: "N-unknown-path", engine: "N", run: nwire::run_unknown_path, quick: 6_000, thorough: 300_000, grid: 0, what: "raw h2 client -> tonic Server with three generated services: unknown method of a known service (generated fallback arm), unknown service and odd paths (router fallback): 200, content-type application/grpc, exactly one grpc-status 12, no body, no handler entered" }, Scenario { name: "F-origin-path", engine: "F", run: c03::run_origin, quick: 4_000, thorough: 150_000, grid: 0, what: "generated client built with_origin (with/without a path prefix, trailing slashes) in front of a foreign peer: :path keeps the prefix and ends in /package.Service/Method, POST, te, content-type, all four shapes" }],
         rule: "passive wire monitor on the C01/C06 (and loopback) runs: every emitted body is parsed by the independent decoder; non-trivial/distinct as in the host scenario",
         real_vs_stub: RVS_F.to_vec(),
         assumptions: vec!["'nothing after the trailers block' is judged the way hyper's HTTP/2 sender consumes a body (stops after trailers / error / None / end-stream flag)"],
